@@ -31,3 +31,18 @@ package dtls
 //@ loop #1: window-from-config: called("replaydetector.New") ==> argAs("replaydetector.New", 0, c.replayProtectionWindow) == c.replayProtectionWindow
 //@ loop #1: not-checked-yet: !called("ReplayDetector.Check")
 //@ end
+
+// bufferHandshakeRecord: a handshake record's replay slot is committed exactly once and only after the
+// reassembly buffer accepted the record as a handshake fragment; a record the buffer rejects (decode error)
+// or does not recognise as handshake is not committed here.
+//@ func Conn.bufferHandshakeRecord
+//@ watch param.markPacketAsValid FragmentBuffer.Push
+//@ requires args: wfConn(c) && header != nil && markPacketAsValid != nil
+//@ ensures commit-at-most-once: ncalls("param.markPacketAsValid") <= 1
+//@ ensures pushed-once: ncalls("FragmentBuffer.Push") == 1
+//@ ensures rejected-not-committed: retErr("FragmentBuffer.Push", 2) != nil ==> !called("param.markPacketAsValid") && !result2
+//@ ensures non-handshake-not-committed: retErr("FragmentBuffer.Push", 2) == nil && !retBool("FragmentBuffer.Push", 0) ==> !called("param.markPacketAsValid") && !result1 && !result2
+//@ ensures accepted-committed: retErr("FragmentBuffer.Push", 2) == nil && retBool("FragmentBuffer.Push", 0) ==> ncalls("param.markPacketAsValid") == 1 && result1 && result2 == retBool("param.markPacketAsValid", 0)
+//@ loop #1: committed-once: ncalls("param.markPacketAsValid") == 1 && ncalls("FragmentBuffer.Push") == 1 && retErr("FragmentBuffer.Push", 2) == nil && retBool("FragmentBuffer.Push", 0) && isLatestSeqNum == retBool("param.markPacketAsValid", 0)
+//@ loop #1: wf-kept: wfConn(c)
+//@ end
